@@ -234,17 +234,17 @@ def concrete_structs(idx, ns, d):
 
 
 @st.composite
-def value_for(draw, idx, costs, t, fuel=3, wild=False, omit_callers=frozenset()):
+def value_for(draw, idx, costs, t, fuel=3, wild=False, omit_callers=frozenset(), bias=None):
     k = t[0]
     if k == 'prim':
         s = prim_value_strategy(t, wild=wild)
         return draw(s)
     if k == 'alias':
-        return draw(value_for(idx, costs, idx.get(t[1], t[2])['type'], fuel, wild, omit_callers))
+        return draw(value_for(idx, costs, idx.get(t[1], t[2])['type'], fuel, wild, omit_callers, bias))
     if k == 'nullable':
         if fuel <= 0 or draw(st.integers(0, 3)) == 0:
             return None
-        return draw(value_for(idx, costs, t[1], fuel, wild, omit_callers))
+        return draw(value_for(idx, costs, t[1], fuel, wild, omit_callers, bias))
     if k == 'list':
         lo = t[2] or 0
         hi = t[3] if t[3] is not None else lo + 3
@@ -252,20 +252,23 @@ def value_for(draw, idx, costs, t, fuel=3, wild=False, omit_callers=frozenset())
             n = lo
         else:
             n = draw(st.sampled_from(sorted({lo, hi, min(hi, lo + 1)})))
-        return [draw(value_for(idx, costs, t[1], fuel - 1, wild, omit_callers)) for _ in range(n)]
+        return [draw(value_for(idx, costs, t[1], fuel - 1, wild, omit_callers, bias)) for _ in range(n)]
     if k == 'map':
         n = 0 if fuel <= 0 else draw(st.integers(0, 2))
         out = {}
         for _ in range(n):
             key = draw(value_for(idx, costs, t[1], 0, wild))
-            out[key] = draw(value_for(idx, costs, t[2], fuel - 1, wild, omit_callers))
+            out[key] = draw(value_for(idx, costs, t[2], fuel - 1, wild, omit_callers, bias))
         return out
     d = idx.get(t[1], t[2])
     if d['k'] == 'struct':
         cands = concrete_structs(idx, t[1], d)
         cands = sorted(cands, key=lambda c: costs.cost[(c[0], c[1]['name'])])
+        hot = [c for c in cands if bias and (c[0], c[1]['name']) in bias.get('subtypes', ())]
         if fuel <= 0:
             cn, cd = cands[0]
+        elif hot and draw(st.integers(0, 2)):
+            cn, cd = draw(st.sampled_from(hot))
         else:
             cn, cd = draw(st.sampled_from(cands))
         fields = {}
@@ -273,9 +276,11 @@ def value_for(draw, idx, costs, t, fuel=3, wild=False, omit_callers=frozenset())
             if omitted_for(idx, f, omit_callers):
                 continue
             opt = idx.is_optional(f)
-            if opt and (fuel <= 0 or draw(st.booleans())):
+            hotf = bias and (cn, cd['name'], f['name']) in bias.get('fields', ()) or \
+                (bias and any((n_, s_['name'], f['name']) in bias.get('fields', ()) for n_, s_ in idx.chain(cn, cd)))
+            if opt and not (hotf and fuel >= 0 and draw(st.integers(0, 9)) > 0) and (fuel <= 0 or draw(st.booleans())):
                 continue
-            v = draw(value_for(idx, costs, f['type'], fuel - 1, wild, omit_callers))
+            v = draw(value_for(idx, costs, f['type'], fuel - 1, wild, omit_callers, bias))
             if v is None and idx.is_nullable(f['type']):
                 continue          # setting a nullable field to None leaves it unset
             fields[f['name']] = v
@@ -286,11 +291,16 @@ def value_for(draw, idx, costs, t, fuel=3, wild=False, omit_callers=frozenset())
         return ('union', (t[1], t[2]), None, None)
     if fuel <= 0:
         tags = sorted(tags, key=lambda tg: 0 if tg['type'] is None else costs.texpr(tg['type']))[:1]
-    tg = draw(st.sampled_from(tags))
+    hot = [x for x in tags if bias and any((n_, u_['name'], x['name']) in bias.get('tags', ())
+                                            for n_, u_ in idx.chain(t[1], d))]
+    if hot and draw(st.integers(0, 2)):
+        tg = draw(st.sampled_from(hot))
+    else:
+        tg = draw(st.sampled_from(tags))
     if tg['type'] is None:
         return ('union', (t[1], t[2]), tg['name'], None)
     return ('union', (t[1], t[2]), tg['name'],
-            draw(value_for(idx, costs, tg['type'], fuel - 1, wild, omit_callers)))
+            draw(value_for(idx, costs, tg['type'], fuel - 1, wild, omit_callers, bias)))
 
 
 def omitted_for(idx, f, callers):
@@ -338,9 +348,27 @@ def materialize(pkg, idx, t, v):
     return getattr(cls, tag)(materialize(pkg, idx, tg['type'], v[3]))
 
 
-def same(idx, t, obj, v, path='$'):
+def _is_empty_struct_obj(obj):
+    names = getattr(type(obj), '_all_field_names_', None)
+    return names is not None and not hasattr(obj, '_tag') and \
+        all(repr(getattr(obj, '_%s_value' % n, None)) == 'NOT_SET' for n in names)
+
+
+def same(idx, t, obj, v, path='$', empty_ok=False):
     """Independent structural comparison of a decoded object with an abstract value; returns
-    None when equal, else a description of the first difference."""
+    None when equal, else a description of the first difference.  With empty_ok the documented
+    ambiguity "null or empty struct" of nullable struct-valued union members is tolerated."""
+    if empty_ok:
+        return _same_tolerant(idx, t, obj, v, path)
+    return _same(idx, t, obj, v, path, False)
+
+
+def _same_tolerant(idx, t, obj, v, path):
+    return _same(idx, t, obj, v, path, True)
+
+
+def _same(idx, t, obj, v, path, tol):
+    same = lambda i, tt, o, vv, p='$': _same(i, tt, o, vv, p, tol)  # noqa: E731
     k = t[0]
     if k == 'alias':
         return same(idx, idx.get(t[1], t[2])['type'], obj, v, path)
@@ -401,6 +429,13 @@ def same(idx, t, obj, v, path='$'):
     tg = [x for _, _, x in idx.union_all_tags(ns, d) if x['name'] == v[2]][0]
     if tg['type'] is None:
         return None if obj._value is None else '%s: void tag with value %r' % (path, obj._value)
+    if tol and idx.is_nullable(tg['type']):
+        b = idx.base(tg['type'])
+        if b[0] == 'ref' and idx.get(b[1], b[2])['k'] == 'struct':
+            empty_v = v[3] is None or (isinstance(v[3], tuple) and v[3][0] == 'struct' and not v[3][2])
+            empty_o = obj._value is None or _is_empty_struct_obj(obj._value)
+            if empty_v and empty_o:
+                return None
     return same(idx, tg['type'], obj._value, v[3], '%s<%s>' % (path, v[2]))
 
 
